@@ -177,7 +177,7 @@ def run(ctx, replay):
                              "(%s, %s)" % (ra["invariant"], ra["error"]))
         ctx.cov["asis_counterexample_found"] = True
         if thorough:
-            g = ctx.tlc("TimeWheel", None, name="simbig", workers=8, timeout=1500, simulate=20000, depth=400,
+            g = ctx.tlc("TimeWheel", None, name="simbig", workers=8, timeout=1500, simulate=2500, depth=260,   # num is per worker
                         cfg_text=cfg(4, (0, 1, 2), ((), ("p1",), ("p1", "p2"), ("p1", "p2", "p3")),
                                      ("TRUE", "FALSE"), (1, 2, 3), 3, tail="INVARIANTS NoViolation TypeOK OnceEach\n"))
             if not g["ok"]:
